@@ -176,7 +176,7 @@ def wf_prefix(hist, obs):
 
 
 def run(ctx, focus, theorems, refuted, monitors, nrandom=(150, 1500), per_config=(1, 4), extra_scenarios=(), wf_only=False,
-        gen_kw=None, ext=False, incarnations=True):
+        gen_kw=None, ext=False, incarnations=True, fixed=True):
     """monitors(hist, obs, nwf, keys) -> list of (coq bool expr, step index, kind, tags)"""
     ctx.cov["trusted_base"] = vf.TRUSTED_COMMON + [
         "harness fakes: client-go fake clientsets as the API server (pods/binding: NotFound if the pod is gone, conflict on another "
@@ -194,7 +194,7 @@ def run(ctx, focus, theorems, refuted, monitors, nrandom=(150, 1500), per_config
         ctx.theorems(focus, theorems, refuted, deps=DEPS + [focus])
     rng = ctx.rng
     hists, labels = [], []
-    for name, h in fixed_scenarios() + list(extra_scenarios):
+    for name, h in (fixed_scenarios() if fixed else []) + list(extra_scenarios):
         hists.append(h); labels.append("scenario:" + name); ctx.dist("scenario:fixed")
     for name, h in (incarnation_scenarios(rng, ctx, per_config[0] if ctx.quick else per_config[1]) if incarnations else []):
         hists.append(h); labels.append(name)
@@ -223,7 +223,7 @@ def run(ctx, focus, theorems, refuted, monitors, nrandom=(150, 1500), per_config
         if trunc:
             ctx.dist("history-truncated:" + trunc)
         ctx.dist("modelled-steps", nsteps)
-        corr.append("(%s %s %s %s %s)" % ("chk_phist2" if ext else "chk_phist", cbool(h["provider"]), cnodes(h["nodes"]),
+        corr.append("(%s %s %s %s %s)" % ({3: "chk_phist3", True: "chk_phist2", False: "chk_phist"}[ext], cbool(h["provider"]), cnodes(h["nodes"]),
                                           conf_trees(h["conf"]), term))
         nwf = wf_prefix(h, o)
         for e, si, kind, tags in monitors(h, o, nwf, keys_term(h)):
@@ -262,7 +262,7 @@ def run(ctx, focus, theorems, refuted, monitors, nrandom=(150, 1500), per_config
         for k in bad_c[:3]:
             h, o = hists[k], obs[k]
             term, _, _, _ = plugingen.translate(h, o, ext=ext)
-            where = ctx.coq_print("dbg", IMPORTS, "%s (world_init %s %s %s) 0 %s" % ("preplay2" if ext else "preplay",
+            where = ctx.coq_print("dbg", IMPORTS, "%s (world_init %s %s %s) 0 %s" % ({3: "preplay3", True: "preplay2", False: "preplay"}[ext],
                 cbool(h["provider"]), cnodes(h["nodes"]), conf_trees(h["conf"]), term))
             ex.append({"history": h, "label": labels[k], "first_disagreeing_modelled_step": where[-80:],
                        "observed": [{kk: vv for kk, vv in s.items() if kk != "dump"} for s in o["steps"]]})
@@ -838,4 +838,52 @@ def mon_c06(h, o, nwf, keys):
         elif k != "informer":
             last_filter = {}      # something else changed: "if nothing else changes" no longer holds for earlier filter results
         prev = d
+    return out
+
+
+# ------------------------------------------------------------------ C05, plugin level: process death inside a section
+def crash_scenarios(rng, ctx, n):
+    """a pod requesting 2-3 range lists is bound; the process dies right before the j-th object creation of the multi-IP
+    allocation (for EVERY j: no rollback happens, unlike a failed creation); a new process starts (restart), resyncs, the
+    scheduler binds again; later the pod is deleted and everything is cleaned up.  Other sections: a clean fault at a random
+    call followed by a restart (for what the new process sees that equals a death at that call)."""
+    hs = []
+    conf = conf_text([POOL_A, POOL_B])
+    for i in range(n):
+        nr = rng.choice([2, 3])
+        ranges = [["10.100.0.%d" % (2 + 2 * j)] if rng.random() < 0.5 else ["10.100.0.%d~10.100.0.%d" % (2 + 2 * j, 3 + 2 * j)] for j in range(nr)]
+        policy = rng.choice([0, 1, 2])
+        P = mkpod("web-0", "z%d" % i, "sts", "web", policy, ranges)
+        pre = [{"op": "sts_set", "ns": "ns1", "name": "web", "replicas": 1}]
+        if rng.random() < 0.4:
+            # one of the ranges is already owned by an earlier incarnation's reservation
+            P0 = mkpod("web-0", "y%d" % i, "sts", "web", 2, ranges[:1])
+            pre += [put(P0), inf(P0), flt(P0), bnd(P0, "node1"), dele(P0), inf(P0), {"op": "event", "n": 0}]
+        for j in range(nr + 1):
+            ops = pre + [put(P), inf(P), flt(P), dict(bnd(P, "node1"), fcrash=j), {"op": "restart"},
+                         {"op": "resync", "ip": "@a0"}, {"op": "resync", "ip": "@a1"}, {"op": "resync", "ip": "@a2"}, inf(P),
+                         bnd(P, "node1"), inf(P), phase(P, 1), inf(P), {"op": "resync", "ip": "@a0"}, {"op": "restart"},
+                         dele(P), inf(P), {"op": "event", "n": 0}, {"op": "resync", "ip": "@a0"}, {"op": "resync", "ip": "@a1"},
+                         {"op": "resync", "ip": "@a2"}]
+            hs.append(("crash:bind-create-%d-of-%d:p%d" % (j, nr, policy),
+                       {"provider": False, "nodes": NODES, "conf": conf, "ops": ops, "_final_free": policy == 0}))
+            ctx.dist("scenario:crash")
+    return hs
+
+
+def mon_crash(h, o, nwf, keys):
+    out = []
+    steps = (o.get("steps") or [])[:nwf]
+    crashed = False
+    for si, (op, st) in enumerate(zip(h["ops"], steps)):
+        if "dump" not in st:
+            break
+        if "fcrash" in op:
+            crashed = True             # the dead process's memory is not a state anybody sees; the next step is the restart
+            continue
+        out.append(("(mon_owned %s %s)" % (keys, cwdump(st["dump"])), si, "live_bound_owned after crash + restart", []))
+        out.append(("(mon_one_owner %s)" % cwdump(st["dump"]), si, "one_owner after crash + restart", []))
+    if h.get("_final_free") and steps and len(steps) == len(h["ops"]):
+        d = steps[-1]["dump"]
+        out.append((lit(not d["alloc"] and not d["store"]), len(steps) - 1, "no leaked IP after crash + restart + resync", []))
     return out
